@@ -136,8 +136,10 @@ def pack_flags(bits):
 
 
 def spec_varint(n):
-    assert n < 0xFD
-    return bytes([n])
+    if n < 0xFD:
+        return bytes([n])
+    assert n <= 0xFFFF
+    return bytes([0xFD, n & 0xFF, n >> 8])
 
 
 def le_int(b):
